@@ -18,7 +18,7 @@ def _small(args):
         for m in modes:
             k += 1
             out.append(x_conv.observe_conv(fx, np, [pid], ts, td, codes, route, MODES[(k + 4) % 10], m, byvalue=(k % 2 == 0)))
-        out.append(x_conv.observe_conv(fx, np, [pid], ts, td, codes, route, MODES[(k + 3) % 10], MODES[(k + 6) % 10], hist=['inplace', 'view', 'elementwise', 'resign', 'intfmt'][k % 5]))
+        out.append(x_conv.observe_conv(fx, np, [pid], ts, td, codes, route, MODES[(k + 3) % 10], MODES[(k + 6) % 10], hist=(['inplace', 'view', 'elementwise', 'resign', 'intfmt', 'fortran', 'transposed'][k % 7] if route not in ('setitem-elem', 'setitem-slice', 'resize-view') else ['inplace', 'view', 'elementwise', 'resign', 'intfmt'][k % 5])))       # (the element / slice / view routes are written for 1-D sources)
         # scalars and 2-D shapes
         out.append(x_conv.observe_conv(fx, np, [pid], ts, td, codes[k % len(codes)], route, MODES[(k + 1) % 10], MODES[k % 10], byvalue=(k % 2 == 1)))
         # one-element arrays keep their shape ((1,), (1, 1)) on every route
